@@ -80,6 +80,8 @@ type World struct {
 	stepIdx  int
 	beginReq abci.RequestBeginBlock
 	blockTxs [][]byte
+	blkTokens []string
+	patSet   map[string]bool
 	crashAtEnd int // 1+node index to crash between EndBlock and Commit of the current block
 	journal  []func(n *Node) // everything applied to the nodes in the current block, for replay after a crash
 	stash    map[int][]byte
@@ -581,6 +583,7 @@ func (w *World) deliverJudged(st *Step, msgs []sdk.Msg, bz []byte) {
 		}
 	}
 	w.Token(k + ":" + okc)
+	w.blkTokens = append(w.blkTokens, k+":"+okc+":"+st.Kind+":"+st.Fault)
 	w.afterDeliverStorage(msgs, res.Code == 0)
 	w.oracle.AfterStep(w, st, msgs, res)
 }
@@ -610,6 +613,17 @@ func (w *World) execBlock(b *Block) {
 		return
 	}
 	w.oracle.AfterBlock(w)
+	if len(w.blkTokens) > 0 {
+		if w.patSet == nil {
+			w.patSet = map[string]bool{}
+		}
+		pat := hashHex(w.blkTokens...)
+		if !w.patSet[pat] {
+			w.patSet[pat] = true
+			w.res.BlockPatterns = append(w.res.BlockPatterns, pat)
+		}
+	}
+	w.blkTokens = nil
 	if b.Export {
 		w.exportImportCheck()
 	}
